@@ -30,6 +30,9 @@ class C16(Prop):
         'shape = the raw tree converted to the generator AST (names, argument '
         'kinds/order/contents, nesting), adjacent text leaves merged',
     )
+    probes = ('read', 'reach')
+    probed_every = 12
+    reach_required = ['data.TexEnv.__str__', 'data.TexCmd.__str__', 'data.TexArgs.__str__', 'reader.read_arg_required', 'reader.read_arg_optional']
     min_nontrivial = 2000
     budget_s = {'quick': 240, 'thorough': 3600}
     exhaustive = {'quick': 'all strings of <= 2 tokens over the 64-token alphabet (inside the domain)',
